@@ -692,7 +692,7 @@ def c29_list(ctx):
             if not wait_control(cport, 20):
                 part.inconclusive("daemon did not start")
                 continue
-            n = rng.choice([0, 1, 2, 3, 7, 12]) if i else 3
+            n = rng.choice([0, 1, 2, 3, 5, 6]) if i else 3   # the daemon admits 6 STOREs per 30 s and client address (C28)
             ids = set()
             for k in range(n):
                 f = os.path.join(work, "f%d.bin" % k)
@@ -700,6 +700,7 @@ def c29_list(ctx):
                 rc, out, err = run_eph(ctx, base + ["store", f, "--ttl", "600"], work, "c29s.%d.%d" % (i, k))
                 if rc != 0:
                     part.inconclusive("eph store failed: " + (err or out)[-200:])
+                    continue
                 ids.add(hashlib.sha256(open(f, "rb").read()).hexdigest())
             rc, out, err = run_eph(ctx, base + ["list"], work, "c29l.%d" % i)
             part.note("list.cli-runs")
